@@ -551,6 +551,8 @@ class Voxel(Family):
             procs = 1 if i % 5 else rng.randint(2, 4)
             # padding: the default 10e-8 (a 53-bit mantissa: slow exact arithmetic in Coq) or a short dyadic value
             tol = None if rng.random() < 0.3 else rng.choice([2.0 ** -16, 2.0 ** -8, 0.125])
+            if procs > 1:
+                tol = rng.choice([2.0 ** -8, 0.125])     # the multi-process variant must honour a non-default padding
             if r < 0.55:
                 # integer point cloud: voxel corners, centres, faces, a few points outside the box
                 npts = rng.randint(0, 10)
@@ -560,7 +562,12 @@ class Voxel(Family):
                     for k in range(3):
                         t = rng.choice([0, 1, 2, 2, 3, 4])     # quarter steps
                         idx = rng.randint(-1, sz[k])
-                        q.append(lo[k] + step[k] * (idx + t / 4.0))
+                        x = lo[k] + step[k] * (idx + t / 4.0)
+                        if tol is not None and rng.random() < (0.6 if procs > 1 else 0.35):
+                            # on / inside the padding band of a voxel face: exactly at face -+ tol (lower one included,
+                            # upper one excluded) or half way into the band
+                            x = lo[k] + step[k] * idx + rng.choice([-tol, tol, -tol / 2, tol / 2])
+                        q.append(x)
                     pts.append(q)
                 op = "lowlevel"
                 c = {"op": op, "bbox": [lo, hi], "sz": sz, "cubes": cubes, "pts": pts, "procs": procs, "tol": tol}
